@@ -29,6 +29,19 @@ Example C02_object_property_example :
   reify_e en 0 e = Accessor 7 (ObjRef KSprite "add" 7 (Binary "add" 4 (Leaf KLocal "i" 0 true) (Leaf KConst "1" 2 true))) "height".
 Proof. split; [cbn; repeat split; lia | split; vm_compute; reflexivity]. Qed.
 
+(* the same constructor carries the other one-operand forms of the 5C family (SpecLingo.ofam): the <property> of field <e>,
+   the last <chunk> of <e>, the number of <chunk>s in <e>, the name of menu <e>, the number of menuItems of menu <e> *)
+Example C02_one_operand_forms_example :
+  let en := Build_env [] [] [Leaf KLocal "s" 0 true] [] [] in
+  wf_e en (EObj FLast 13 (ELoc 0)) /\ wf_e en (EObj FNumber 4 (ELoc 0)) /\ wf_e en (EObj FField 2 (ELoc 0)) /\
+  wf_e en (EObj FMenuItems 2 (EInt 3)) /\
+  reify_e en 0 (EObj FLast 13 (ELoc 0)) = UStrOp "last" 4 (Some "word") (Leaf KLocal "s" 0 true) /\         (* the last word of s *)
+  reify_e en 0 (EObj FNumber 4 (ELoc 0)) = UStrOp "number" 4 (Some "line") (Leaf KLocal "s" 0 true) /\      (* the number of lines in s *)
+  reify_e en 0 (EObj FField 2 (ELoc 0)) = Accessor 4 (Unary "field" 4 (Leaf KLocal "s" 0 true)) "text" /\   (* the text of field s *)
+  reify_e en 0 (EObj FMenuItems 2 (EInt 3))
+    = UStrOp "number" 4 None (MenuItemsAcc 4 (ObjRef KMenu "3" 4 (Leaf KConst "3" 0 true))).               (* the number of menuItems of menu 3 *)
+Proof. repeat split; try (cbn; lia); vm_compute; reflexivity. Qed.
+
 (* ... and  EMenu pid item menu  ( the <property> of menuItem <item> of menu <menu> , opcode 5C 03): the item is compiled
    first, then the menu; the tree names the menu first *)
 Example C02_menu_item_property_example :
